@@ -300,6 +300,17 @@ Section C09.
     end.
   Proof. exact (fun encode_f => backward_only_serves C E ltb cur encode_f decode). Qed.
 
+  (** cost: the number of edges defaultConnectionCost charges for ([last] if given, else [first])
+      bounds the number of edges an accepted request returns *)
+  Theorem C09_cost_bounds_page : forall (a : app C E) edges S ar af bf,
+    app_ok C E ltb cur a edges S ->
+    args_rejected (a_first ar) (a_last ar) = false ->
+    decode_arg C decode (a_after ar) EInvalidAfter = Ok af ->
+    decode_arg C decode (a_before ar) EInvalidBefore = Ok bf ->
+    exists page pi t, serve C E ltb cur encode decode a ar = RData page pi t /\
+                      Z.of_nat (length page) <= max_edge_count ar.
+  Proof. exact (cost_bounds_page C E ltb cur ltb_irrefl ltb_trans ltb_total encode decode). Qed.
+
   (** [first] AND [last] through the public pagination.EdgesToReturn: hasPreviousPage is the
       specification's formula applied to the edges that survive the [first]-truncation (the prose
       reading, sound by [C09_relay_has_prev_sound]); hasNextPage is the formula itself *)
@@ -465,3 +476,4 @@ Print Assumptions C09_cursor_roundtrip_f.
 Print Assumptions C09_cursor_ok_time.
 Print Assumptions C09_cursor_order.
 Print Assumptions C09_promise_composes_with_executor.
+Print Assumptions C09_cost_bounds_page.
